@@ -158,7 +158,7 @@ func (s *LifeScenario) Setup(k *sim.Kernel) {
 		})
 	}
 	k.Spawn("janitor", func() {
-		lastRound, seen := -1, 0
+		lastRound, lastAcc, seen := -1, -1, 0
 		for i := 0; i < 16; i++ {
 			sim.Await(sim.Cond{Kind: sim.CondQuiescent})
 			if sim.Holds(sim.Cond{Kind: sim.CondLogged, S1: "serve.done", N: 1}) {
@@ -168,8 +168,10 @@ func (s *LifeScenario) Setup(k *sim.Kernel) {
 			if r < 0 || r >= len(s.Rounds) {
 				return
 			}
-			if r != lastRound {
-				lastRound, seen = r, 0
+			// (idle means: quiescent points in a row of the same round without a new connection)
+			acc := sim.Count(sim.Cond{Kind: sim.CondAccepted, S1: network, S2: addr})
+			if r != lastRound || acc != lastAcc {
+				lastRound, lastAcc, seen = r, acc, 0
 			}
 			seen++
 			if s.Rounds[r].TimeoutNs > 0 && seen <= 2 {
@@ -619,8 +621,23 @@ func (s *LifeScenario) Check(k *sim.Kernel) []sim.Violation {
 					}
 				}
 			}
+			// ... by the record of its listener: at an expiry of the accept deadline no
+			// accepted connection was open and the world was quiet (nothing but the serving
+			// task had run since the expiry before, so the service's own count was settled):
+			// that expiry had to end the round, yet the deadline was armed and expired again.
+			// (That the janitor found the world quiet three times says nothing by itself: a
+			// client may have held a connection open across those points.)
 			if onlyJanitor {
-				out = append(out, vio("timeout", "timeout-never-fired", "round %d (timeout %v) was idle (every client gone, two quiescent points) and did not stop by itself; the janitor had to shut it down; it returned %q", rd.idx, to, rd.retErr))
+				quietAt := map[uint64]bool{}
+				for _, q := range k.QuiesceSeqs {
+					quietAt[q] = true
+				}
+				for i, e := range l.TimeoutLog {
+					if e.OpenConn == 0 && quietAt[e.Seq] && i+1 < len(l.TimeoutLog) {
+						out = append(out, vio("timeout", "timeout-never-fired", "round %d (timeout %v): at %v the accept deadline expired with no accepted connection open and the world quiet, yet the round did not stop by itself: the deadline expired again at %v and the janitor had to shut the round down; it returned %q", rd.idx, to, e.At, l.TimeoutLog[i+1].At, rd.retErr))
+						break
+					}
+				}
 			}
 		}
 	}
